@@ -832,7 +832,7 @@ func longRun(c config) (*hk.Violation, int64, string) {
 
 var (
 	one90Wrap = []streamCfg{{SSRC: 0x1111, Rate: 90000, StartSeq: 65534, StartTS: 1<<32 - 3000}}
-	one90Zero = []streamCfg{{SSRC: 0x1111, Rate: 90000, StartSeq: 0, StartTS: 0}}
+	one48Zero = []streamCfg{{SSRC: 0x1111, Rate: 48000, StartSeq: 0, StartTS: 0}} // an audio clock: loss accounting does not depend on the clock rate
 	twoStr    = []streamCfg{{SSRC: 0x1111, Rate: 90000, StartSeq: 65534, StartTS: 1<<32 - 3000}, {SSRC: 0x2222, Rate: 8000, StartSeq: 0, StartTS: 0}}
 )
 
@@ -881,7 +881,7 @@ func configs(tier string) []config {
 	var out []config
 	th := tier == "thorough"
 	// loss accounting
-	for k, st := range [][]streamCfg{one90Wrap, one90Zero} {
+	for k, st := range [][]streamCfg{one90Wrap, one48Zero} {
 		c := config{Kind: "loss", Streams: st, Depth: 5}
 		r := config{Kind: "loss-r", Streams: st, Depth: 6}
 		if th {
